@@ -2,6 +2,7 @@
 //! rate, fed by the trace taps in the rate computer (World U drives it directly with arbitrary
 //! feedback histories; Worlds A/B supply the histories a real receiver produces).
 
+use crate::plan::EndpointKind;
 use crate::world::*;
 use std::collections::BTreeMap;
 use uflow::verif::trace::Event as T;
@@ -50,7 +51,15 @@ impl Oracle for RfcOracle {
         match rec {
             Rec::Trace { call, ep, hc, ev } => match ev {
                 T::HcCreated { tx_bandwidth_limit, .. } => {
-                    self.ceilings.insert((*ep, *hc), *tx_bandwidth_limit);
+                    // World B clients: the ceiling is what the two configurations say, not what
+                    // the connection was handed (a server may advertise the wrong field)
+                    let mut ceiling = *tx_bandwidth_limit;
+                    if let EndpointKind::Client { server, cfg } = &cx.plan.endpoints[*ep].kind {
+                        if let EndpointKind::Server { cfg: sc, .. } = &cx.plan.endpoints[*server].kind {
+                            ceiling = cfg.max_send_rate.min(sc.max_receive_rate).min(u32::MAX as u64) as u32;
+                        }
+                    }
+                    self.ceilings.insert((*ep, *hc), ceiling);
                 }
                 T::Feedback { rtt_sample_ms, loss_rate, rtt_before_s, rtt_after_s, x_before, x_after, mode_before, mode_after, .. } => {
                     self.feedbacks += 1;
